@@ -213,25 +213,31 @@ def gen(tier, idx):
                 ops.append(['copy', h, nh]); nh += 1
         elif op == 'eq': ops.append(['eq', h, r.randrange(nh)])
         if cached and r.random() < 0.15: ops.append([r.choice(['dump', 'load']), r.randrange(nh)])
-    return dict(kind=kind, codec=codec, opts=opts, stream=stream, cached=cached), ops
+    seed = []
+    if kind != 'null' and r.random() < 0.4 and good:
+        for k in r.sample(keys, min(len(keys), r.choice([1, 2]))): seed.append([k, r.choice(good)])
+    return dict(kind=kind, codec=codec, opts=opts, stream=stream, cached=cached, seed=seed), ops
 
 
 # ------------------------------------------------------------------ implementation side
-def open_archive(cfg, tmp, n):
-    """the real archive object number n of this trace"""
+def open_archive(cfg, tmp, n, seed=None, cached=False):
+    """the real archive object number n of this trace, through the factories of klepto.archives: `dict=` seeds it,
+    `cached=True` puts an in-memory cache in front (the seed then goes into the cache)"""
     import klepto.archives as ka
     kind, opts = cfg['kind'], dict(cfg['opts'])
-    if kind == 'dict': return ka.dict_archive('d%d' % n, cached=False)
-    if kind == 'null': return ka.null_archive('n%d' % n, cached=False)
+    kw = dict(cached=cached)
+    if seed is not None: kw['dict'] = dict(seed)
+    if kind == 'dict': return ka.dict_archive('d%d' % n, **kw)
+    if kind == 'null': return ka.null_archive('n%d' % n, **kw)
     if kind == 'file':
         ext = '.py' if opts.get('serialized') is False else ('.json' if opts.get('protocol') == 'json' else '.pkl')
-        return ka.file_archive(os.path.join(tmp, 'f%d%s' % (n, ext)), cached=False, **opts)
-    if kind == 'dir': return ka.dir_archive(os.path.join(tmp, 'dir%d' % n), cached=False, **opts)
+        return ka.file_archive(os.path.join(tmp, 'f%d%s' % (n, ext)), **kw, **opts)
+    if kind == 'dir': return ka.dir_archive(os.path.join(tmp, 'dir%d' % n), **kw, **opts)
     if kind == 'sql':
         db = opts.pop('db')
-        if db == 'memory': return ka.sqltable_archive(None, cached=False)
-        return ka.sqltable_archive('sqlite:///%s' % os.path.join(tmp, 's.db'), cached=False) if n == 0 else \
-            ka.sqltable_archive('sqlite:///%s?table=t%d' % (os.path.join(tmp, 's.db'), n), cached=False)
+        if db == 'memory': return ka.sqltable_archive(None, **kw)
+        return ka.sqltable_archive('sqlite:///%s' % os.path.join(tmp, 's.db'), **kw) if n == 0 else \
+            ka.sqltable_archive('sqlite:///%s?table=t%d' % (os.path.join(tmp, 's.db'), n), **kw)
     raise ValueError(kind)
 
 
@@ -270,12 +276,15 @@ def run_trace(cfg, ops):
             elif op[0] == 'popkeys' and len(op) > 3: vals(op[3])
             elif op[0] == 'update':
                 for k, v in op[2]: vals(v)
+        for k, v in cfg.get('seed', []): vals(mat(v))     # the factory's `archive.update(dict)`: an update through the handle
         cv = cv_table(vals, cfg['codec'], cfg['opts'])
         nvals = len(vals.v)
         ckmode = 'json' if (cfg['kind'] == 'file' and cfg['codec'] == 'json') else ('sql' if cfg['kind'] == 'sql' else 'id')
         lines = [dict(suite='backend', op='cfg', kind=cfg['kind'], ck=ckmode, cv=cv, cached=cfg['cached'])]
-        arch = [open_archive(cfg, tmp, 0)]
-        hand = [kcache(archive=arch[0]) if cfg['cached'] else arch[0]]
+        seed = [(mat(k) if False else k, mat(v)) for k, v in cfg.get('seed', [])]
+        h0 = open_archive(cfg, tmp, 0, seed=seed, cached=cfg['cached'])
+        arch = [h0.archive if cfg['cached'] else h0]
+        hand = [h0]
         ref = [dict()]            # reference dict of what the *handle* holds
         refa = [dict()]           # reference dict of the archive behind a cache
         names = ['a']
@@ -294,7 +303,8 @@ def run_trace(cfg, ops):
             if d == 'EXC': return 'EXC'
             return sorted(([kcanon(k), vals(v)] for k, v in d.items()), key=lambda p: p[0])
 
-        for i, op in enumerate(ops):
+        for i, op in enumerate(([['seed', 0, list(seed)]] if seed else []) + list(ops)):
+            if seed: i -= 1
             kind = op[0]; hi = op[1]
             if hi >= len(hand): continue
             H = hand[hi]; R = ref[hi]; nm = names[hi]
@@ -333,6 +343,8 @@ def run_trace(cfg, ops):
                 elif kind == 'update':
                     line.update(kvs=[[kj(k), vals(v)] for k, v in op[2]]); H.update([(k, v) for k, v in op[2]]); out = dict(o='unit')
                 elif kind == 'clear': H.clear(); out = dict(o='unit')
+                elif kind == 'seed':
+                    line.update(op='update', kvs=[[kj(k), vals(v)] for k, v in op[2]]); out = dict(o='unit')
                 elif kind == 'copy':
                     n = op[2]; to = 'abc'[n]
                     line.update(to=to)
@@ -385,7 +397,7 @@ def run_trace(cfg, ops):
         if len(vals.v) > nvals:
             # a value came back that the oracle did not predict: extend the table so that the model can name it
             pass
-        for rec in recs: rec['op'] = ops_in[rec['i']]
+        for rec in recs: rec['op'] = ops_in[rec['i']] if rec['i'] >= 0 else ['seed', 0, repr(cfg.get('seed'))]
         return dict(cfg=cfg, ops=ops_in, lines=lines, recs=recs, tags=dict(tags), err=None,
                     vals=[repr(v)[:40] for v in vals.v], nvals=nvals)
     except Exception:
